@@ -125,6 +125,7 @@ property. None is listed as a known finding; the machinery was corrected.
 | C13 best-selection at n=4 | inconclusive (tour lengths of symbolic permutations) | reward term too heavy for what is a row-selection question | reward = uninterpreted function of (instance, sequence) in those jobs |
 | C05 thorough | MTVRP variants with distance limit and time windows at n=3 time out | query size | those sizes removed from the plan (n=2 remains) and stated |
 | C04 / C05 thorough | "reachability witness does not replay" (CVRPTW n=3 B=3) | the only model of that path left distances to the abstraction (no collinear completion), the real run need not follow it | such witnesses are marked inexact and skipped (noted in evidence), exact ones still must replay |
+| C18 DPP / MDPP generators (new jobs) | "the generator raises: index 9 out of bounds" reported AND confirmed | my `randint` stub mis-read `torch.randint(high, size=...)` as `low=high`; the replay fed the out-of-support value into the real generator, which then really raised | stub fixed; the replay now refuses fed values outside the real sampler's support (harness error, not a confirmation) |
 | C12 feasibility | (design decision) | "feasible ... whenever at least k feasible starts exist" read as: feasibility whenever the instance has a feasible start, distinctness whenever it has k | holds on the repaired tree except for the two recorded OP findings |
 | seed handling | an agent's `git stash` and mine interleaved (the stash is shared between worktrees): /repo briefly carried an agent's mutation | process error | /repo restored from git, seeds are now tested in scratch worktrees, agents told not to stash |
 
